@@ -1,7 +1,8 @@
 (* WriterProofs.v -- lemmas about the V3000 writer (Model/Writer.v) and about how the V3000
    reader's continuation logic (Model/V3000.v: concat_dash, tokenize) undoes the writer's
    line wrapping.  Property C09. *)
-From Coq Require Import String Lia Arith DecimalString.
+From Coq Require Import String Lia Arith DecimalString DecimalPos DecimalN DecimalZ.
+From Coq Require FinFun.
 Require Import Base Mol Text Molfile V3000 Writer.
 Require Params.
 
@@ -904,3 +905,692 @@ Proof. vm_compute. reflexivity. Qed.
 Example ex_trailing_dash_needed :
   concat_dash 2 (v30_line (t "A-") ++ v30_line (t "B")) = ok [prefix ++ t "AB"].
 Proof. vm_compute. reflexivity. Qed.
+
+(* ------------------------------------------------------------------------------------ *)
+(* 9. int() reads back what str() printed                                                *)
+(* ------------------------------------------------------------------------------------ *)
+
+Lemma ascii_eqb_eq : forall a b, ascii_eqb a b = true -> a = b.
+Proof.
+  intros a b H. unfold ascii_eqb in H. apply N.eqb_eq in H.
+  rewrite <- (ascii_N_embedding a), <- (ascii_N_embedding b), H. reflexivity.
+Qed.
+
+Lemma text_eqb_eq : forall a b, text_eqb a b = true -> a = b.
+Proof.
+  induction a as [|x a IH]; destruct b as [|y b]; cbn [text_eqb]; intro H; try discriminate H; [reflexivity|].
+  apply andb_true_iff in H. destruct H as [H1 H2]. rewrite (ascii_eqb_eq _ _ H1), (IH _ H2). reflexivity.
+Qed.
+
+Lemma text_eqb_refl : forall a, text_eqb a a = true.
+Proof. induction a as [|x a IH]; [reflexivity|]. cbn [text_eqb]. rewrite ascii_eqb_refl, IH. reflexivity. Qed.
+
+Lemma strip_good : forall s, good_tok s -> strip s = s.
+Proof.
+  intros s H. unfold strip. rewrite (rstrip_ends_nonspace s (good_tok_ends_nonspace s H)).
+  destruct H as [Hne Hsf]. destruct s as [|c r]; [congruence|].
+  inversion Hsf as [|? ? Hc _]; subst. cbn [lstrip_by]. rewrite Hc. reflexivity.
+Qed.
+
+Lemma is_digit_not_plus : forall c, is_digit c = true -> is_code 43%N c = false.
+Proof.
+  intros [b0 b1 b2 b3 b4 b5 b6 b7];
+    destruct b0, b1, b2, b3, b4, b5, b6, b7; vm_compute; intro H; try reflexivity; discriminate H.
+Qed.
+
+Lemma int_digits_all : forall l acc, all_digit l -> int_digits acc true l = Some (digits_val acc l).
+Proof.
+  induction l as [|c l IH]; intros acc H; [reflexivity|].
+  inversion H as [|? ? Hc Hl]; subst. cbn [int_digits digits_val]. rewrite Hc. apply IH, Hl.
+Qed.
+
+Lemma int_digits_start : forall l, l <> [] -> all_digit l -> int_digits 0 false l = Some (digits_val 0 l).
+Proof.
+  intros l Hne H. destruct l as [|c l]; [congruence|].
+  inversion H as [|? ? Hc Hl]; subst. cbn [int_digits digits_val]. rewrite Hc. apply int_digits_all, Hl.
+Qed.
+
+Lemma all_digit_good : forall l, l <> [] -> all_digit l -> good_tok l.
+Proof. intros l Hne H. split; [exact Hne|apply all_digit_spacefree, H]. Qed.
+
+Lemma py_int_digits : forall l, l <> [] -> all_digit l -> py_int l = Some (Z.of_N (digits_val 0 l)).
+Proof.
+  intros l Hne H. unfold py_int. rewrite (strip_good l (all_digit_good l Hne H)).
+  destruct l as [|c r] eqn:E; [congruence|]. rewrite <- E in *.
+  assert (Hc : is_digit c = true) by (rewrite E in H; inversion H; assumption).
+  rewrite (is_digit_not_dash c Hc), (is_digit_not_plus c Hc).
+  rewrite (int_digits_start l Hne H). reflexivity.
+Qed.
+
+Lemma py_int_neg_digits : forall l, l <> [] -> all_digit l ->
+  py_int (dash :: l) = Some (Z.opp (Z.of_N (digits_val 0 l))).
+Proof.
+  intros l Hne H. unfold py_int.
+  assert (G : good_tok (dash :: l)).
+  { split; [discriminate|]. constructor; [reflexivity|apply all_digit_spacefree, H]. }
+  rewrite (strip_good _ G). rewrite is_code_dash. rewrite (int_digits_start l Hne H). reflexivity.
+Qed.
+
+Lemma digits_val_uint : forall d a,
+  digits_val (DecimalPos.Unsigned.of_lu a) (t (NilEmpty.string_of_uint d))
+  = DecimalPos.Unsigned.of_lu (Decimal.revapp d a).
+Proof.
+  unfold t.
+  induction d; intro a;
+    cbn [NilEmpty.string_of_uint list_ascii_of_string digits_val Decimal.revapp]; [reflexivity|..];
+    rewrite <- IHd; f_equal; cbn [DecimalPos.Unsigned.of_lu];
+    match goal with |- context [digit_val ?c] =>
+      let v := eval vm_compute in (digit_val c) in change (digit_val c) with v end; lia.
+Qed.
+
+Lemma digits_val_nzuint : forall d, digits_val 0 (t (NilZero.string_of_uint d)) = N.of_uint d.
+Proof.
+  intro d. unfold N.of_uint. rewrite DecimalPos.Unsigned.of_uint_alt. unfold Decimal.rev.
+  rewrite <- digits_val_uint. destruct d; reflexivity.
+Qed.
+
+Lemma digits_val_text_of_N : forall n, digits_val 0 (text_of_N n) = n.
+Proof. intro n. unfold text_of_N. rewrite digits_val_nzuint. apply DecimalN.Unsigned.of_to. Qed.
+
+Lemma py_int_text_of_N : forall n, py_int (text_of_N n) = Some (Z.of_N n).
+Proof.
+  intro n. rewrite (py_int_digits _ (text_of_N_nonnil n) (text_of_N_all_digit n)), digits_val_text_of_N.
+  reflexivity.
+Qed.
+
+Lemma py_int_text_of_Z : forall z, py_int (text_of_Z z) = Some z.
+Proof.
+  intro z. unfold text_of_Z. destruct z as [|p|p]; cbn [Z.to_int NilZero.string_of_int].
+  - vm_compute. reflexivity.
+  - rewrite (py_int_digits _ (nzuint_nonnil _) (nzuint_all_digit _)), digits_val_nzuint.
+    unfold N.of_uint. rewrite DecimalPos.Unsigned.of_to. reflexivity.
+  - change (t (String "-" (NilZero.string_of_uint (Pos.to_uint p))))
+      with (dash :: t (NilZero.string_of_uint (Pos.to_uint p))).
+    rewrite (py_int_neg_digits _ (nzuint_nonnil _) (nzuint_all_digit _)), digits_val_nzuint.
+    unfold N.of_uint. rewrite DecimalPos.Unsigned.of_to. reflexivity.
+Qed.
+
+Lemma int_of_tN : forall n, int_of (tN n) = ok (Z.of_N n).
+Proof. intro n. unfold int_of, tN. rewrite py_int_text_of_N. reflexivity. Qed.
+Lemma int_of_tZ : forall z, int_of (tZ z) = ok z.
+Proof. intro z. unfold int_of, tZ. rewrite py_int_text_of_Z. reflexivity. Qed.
+
+(* ------------------------------------------------------------------------------------ *)
+(* 10. reading an atom line back                                                         *)
+(* ------------------------------------------------------------------------------------ *)
+
+(* split: the first field *)
+Lemma split_on_aux_head : forall f l cur, exists h tl, split_on_aux f cur l = (rev cur ++ h) :: tl.
+Proof.
+  intros f l. induction l as [|c r IH]; intro cur.
+  - exists [], []. cbn [split_on_aux]. rewrite app_nil_r. reflexivity.
+  - cbn [split_on_aux]. destruct (f c).
+    + exists [], (split_on_aux f [] r). rewrite app_nil_r. reflexivity.
+    + destruct (IH (c :: cur)) as [h [tl E]]. exists (c :: h), tl. rewrite E. cbn [rev].
+      rewrite <- app_assoc. reflexivity.
+Qed.
+
+Lemma split_on_head_keep : forall f c r, f c = false -> exists h tl, split_on f (c :: r) = (c :: h) :: tl.
+Proof.
+  intros f c r H. unfold split_on. cbn [split_on_aux]. rewrite H.
+  destruct (split_on_aux_head f r [c]) as [h [tl E]]. exists h, tl. exact E.
+Qed.
+
+Lemma split_on_head_sep : forall f c r, f c = true -> exists h tl, split_on f (c :: r) = [] :: h :: tl.
+Proof.
+  intros f c r H. unfold split_on. cbn [split_on_aux]. rewrite H.
+  destruct (split_on_aux_head f r []) as [h [tl E]]. exists h, tl. rewrite E. reflexivity.
+Qed.
+
+Lemma split_on_two : forall f a b,
+  Forall (fun c => f c = false) a -> Forall (fun c => f c = false) b ->
+  forall s, f s = true -> split_on f (a ++ s :: b) = [a; b].
+Proof.
+  intros f a b Ha Hb s Hs. unfold split_on.
+  rewrite (split_on_aux_tok f a [] (s :: b) Ha). cbn [split_on_aux]. rewrite Hs, app_nil_r, rev_involutive.
+  rewrite <- (app_nil_r b) at 1. rewrite (split_on_aux_tok f b [] [] Hb). cbn [split_on_aux].
+  rewrite app_nil_r, rev_involutive. reflexivity.
+Qed.
+
+(* ---- key=value tokens ---- *)
+Lemma key_matches_exact : forall key tok,
+  key_matches key tok = match split_on (is_code 61%N) tok with k :: _ => text_eqb k key | [] => false end.
+Proof. reflexivity. Qed.     (* Params.v3000_keyword_exact = true *)
+
+Lemma key_matches_first : forall k0 kr c r, ascii_eqb c k0 = false -> key_matches (k0 :: kr) (c :: r) = false.
+Proof.
+  intros k0 kr c r H. rewrite key_matches_exact. destruct (is_code 61%N c) eqn:E.
+  - destruct (split_on_head_sep _ c r E) as [h [tl ->]]. reflexivity.
+  - destruct (split_on_head_keep _ c r E) as [h [tl ->]]. cbn [text_eqb]. rewrite H. reflexivity.
+Qed.
+
+Definition no_eq (l : text) : Prop := Forall (fun c => is_code 61%N c = false) l.
+
+Lemma is_digit_not_eq : forall c, numchar c = true -> is_code 61%N c = false.
+Proof.
+  intros [b0 b1 b2 b3 b4 b5 b6 b7];
+    destruct b0, b1, b2, b3, b4, b5, b6, b7; vm_compute; intro H; try reflexivity; discriminate H.
+Qed.
+
+Lemma tZ_no_eq : forall v, no_eq (tZ v).
+Proof.
+  intro v. unfold tZ, no_eq. destruct (text_of_Z_shape v) as [ds [_ [Hd [-> | ->]]]].
+  - eapply Forall_impl; [|exact Hd]. intros c Hc. apply is_digit_not_eq, is_digit_numchar, Hc.
+  - constructor; [reflexivity|]. eapply Forall_impl; [|exact Hd].
+    intros c Hc. apply is_digit_not_eq, is_digit_numchar, Hc.
+Qed.
+
+Lemma split_keyval : forall name v, no_eq (t name) ->
+  split_on (is_code 61%N) (t name ++ t "=" ++ tZ v) = [t name; tZ v].
+Proof. intros name v Hn. apply split_on_two; [exact Hn|apply tZ_no_eq|reflexivity]. Qed.
+
+Definition keep (cond : Z -> bool) (o : option Z) : option Z :=
+  match o with Some v => if cond v then Some v else None | None => None end.
+
+Lemma prop_values_skip : forall key tk r, key_matches key tk = false -> prop_values key (tk :: r) = prop_values key r.
+Proof. intros key tk r H. cbn [prop_values]. rewrite H. reflexivity. Qed.
+
+Lemma prop_values_opt : forall key name cond o rest, no_eq (t name) ->
+  prop_values key (opt_tok name cond o ++ rest) =
+  if text_eqb (t name) key then
+    match keep cond o with
+    | Some v => do r <- prop_values key rest; ok (v :: r)
+    | None => prop_values key rest
+    end
+  else prop_values key rest.
+Proof.
+  intros key name cond o rest Hn. unfold opt_tok, keep.
+  destruct o as [v|]; [destruct (cond v)|]; cbn [app]; try (destruct (text_eqb (t name) key); reflexivity).
+  cbn [prop_values]. rewrite key_matches_exact, (split_keyval name v Hn).
+  destruct (text_eqb (t name) key); [|reflexivity].
+  cbn [nth_tok bind ok]. rewrite int_of_tZ. reflexivity.
+Qed.
+
+Lemma last_nonzero_keep : forall cond o, (forall v, cond v = true -> v <> 0%Z) ->
+  last_nonzero (match keep cond o with Some v => [v] | None => [] end) = keep cond o.
+Proof.
+  intros cond o H. unfold keep. destruct o as [v|]; [|reflexivity].
+  destruct (cond v) eqn:E; [|reflexivity]. unfold last_nonzero. cbn [rev app].
+  destruct (Z.eqb_spec v 0); [exfalso; exact (H v E e)|reflexivity].
+Qed.
+
+Lemma chg_ok_nonzero : forall v, chg_ok v = true -> v <> 0%Z.
+Proof. intros v H. unfold chg_ok in H. destruct (Z.eqb_spec v 0); [subst; discriminate H|assumption]. Qed.
+Lemma rad_ok_nonzero : forall v, rad_ok v = true -> v <> 0%Z.
+Proof. intros v H. unfold rad_ok in H. apply andb_true_iff in H. destruct H as [H _]. apply Z.ltb_lt in H. lia. Qed.
+Lemma mass_ok_nonzero : forall v, mass_ok v = true -> v <> 0%Z.
+Proof. intros v H. unfold mass_ok in H. apply Z.ltb_lt in H. lia. Qed.
+
+(* ---- tokens that are never a property key ---- *)
+Definition key_texts : list text := [t "CHG"; t "MASS"; t "RAD"].
+Definition not_a_key (tk : text) : Prop := forall k, In k key_texts -> key_matches k tk = false.
+
+Definition floatstart (c : ascii) : bool := is_digit c || is_code 45%N c || is_code 43%N c || is_code 46%N c.
+
+Lemma floatstart_not_key : forall c, floatstart c = true ->
+  ascii_eqb c "C" = false /\ ascii_eqb c "M" = false /\ ascii_eqb c "R" = false.
+Proof.
+  intros [b0 b1 b2 b3 b4 b5 b6 b7];
+    destruct b0, b1, b2, b3, b4, b5, b6, b7; vm_compute; intro H; try (repeat split; reflexivity); discriminate H.
+Qed.
+
+Lemma floatstart_not_a_key : forall c r, floatstart c = true -> not_a_key (c :: r).
+Proof.
+  intros c r H k Hk. destruct (floatstart_not_key c H) as [H1 [H2 H3]].
+  cbn in Hk. destruct Hk as [<- | [<- | [<- | []]]]; apply key_matches_first; assumption.
+Qed.
+
+Lemma all_digit_not_a_key : forall l, all_digit l -> not_a_key l.
+Proof.
+  intros l H. destruct l as [|c r]; [intros k Hk; cbn in Hk; destruct Hk as [<- | [<- | [<- | []]]]; reflexivity|].
+  apply floatstart_not_a_key. inversion H as [|? ? Hc _]; subst. unfold floatstart. rewrite Hc. reflexivity.
+Qed.
+
+(* float(): the shapes the model accepts start with a digit, a sign or the point *)
+Lemma float_mantissa_first : forall c h, float_mantissa (c :: h) = true -> is_digit c || is_code 46%N c = true.
+Proof.
+  intros c h H. destruct (is_code 46%N c) eqn:E; [apply orb_true_r|]. rewrite orb_false_r.
+  unfold float_mantissa in H. destruct (split_on_head_keep _ c h E) as [h' [tl E']]. rewrite E' in H.
+  destruct tl as [|b [|x y]].
+  - cbn [all_digits] in H. destruct (is_digit c); [reflexivity|]. cbn in H. discriminate H.
+  - cbn [all_digits] in H. destruct (is_digit c); [reflexivity|]. cbn in H. discriminate H.
+  - discriminate H.
+Qed.
+
+Lemma float_mantissa_nil : float_mantissa [] = false.
+Proof. reflexivity. Qed.
+
+Lemma py_float_first : forall s, good_tok s -> py_float_ok s = true ->
+  exists c r, s = c :: r /\ floatstart c = true.
+Proof.
+  intros s G H. unfold py_float_ok in H. rewrite (strip_good s G) in H.
+  destruct G as [Hne _]. destruct s as [|c r]; [congruence|]. exists c, r. split; [reflexivity|].
+  unfold floatstart. cbv zeta in H.
+  destruct (is_code 45%N c) eqn:E45; [rewrite orb_true_r; reflexivity|].
+  destruct (is_code 43%N c) eqn:E43; [rewrite orb_true_r; reflexivity|].
+  rewrite !orb_false_r.
+  unfold unsign in H. rewrite E45, E43 in H. cbn [orb] in H.
+  destruct (is_e c) eqn:Ee.
+  - destruct (split_on_head_sep _ c r Ee) as [h [tl E]]. rewrite E in H.
+    destruct tl; [rewrite float_mantissa_nil in H|]; discriminate H.
+  - destruct (split_on_head_keep _ c r Ee) as [h [tl E]]. rewrite E in H.
+    destruct tl as [|e [|x y]].
+    + exact (float_mantissa_first c h H).
+    + apply andb_true_iff in H. destruct H as [H _]. apply andb_true_iff in H. destruct H as [H _].
+      exact (float_mantissa_first c h H).
+    + discriminate H.
+Qed.
+
+Definition coord_tok (s : text) : Prop := good_tok s /\ py_float_ok s = true.
+
+Lemma coord_not_a_key : forall s, coord_tok s -> not_a_key s.
+Proof.
+  intros s [G H]. destruct (py_float_first s G H) as [c [r [-> Hc]]]. apply floatstart_not_a_key, Hc.
+Qed.
+
+(* ---- element symbols ---- *)
+Definition sym_check (k : text) : bool :=
+  nonempty k && forallb (fun c => negb (is_space c)) k
+  && negb (text_eqb k (t "*"))
+  && (match assoc_text hydrogen_isotopes k with None => true | Some _ => false end)
+  && forallb (fun key => negb (key_matches key k)) key_texts.
+
+Lemma elem_table_checked : forallb (fun e => sym_check (fst e)) elem_table = true.
+Proof. vm_compute. reflexivity. Qed.
+
+Lemma assoc_text_in : forall (V : Type) (l : list (text * V)) s v, assoc_text l s = Some v -> In (s, v) l.
+Proof.
+  intros V l s v. induction l as [|[k w] l IH]; cbn [assoc_text]; intro H; [discriminate H|].
+  destruct (text_eqb k s) eqn:E.
+  - apply text_eqb_eq in E. injection H as ->. subst. left. reflexivity.
+  - right. apply IH, H.
+Qed.
+
+Lemma symbol_checked : forall s z, z_of_symbol s = Some z -> sym_check s = true.
+Proof.
+  intros s z H. apply assoc_text_in in H.
+  pose proof elem_table_checked as C. rewrite forallb_forall in C. apply (C (s, z) H).
+Qed.
+
+Record sym_facts (s : text) : Prop := {
+  sf_good : good_tok s;
+  sf_not_star : text_eqb s (t "*") = false;
+  sf_not_isotope : detect_isotope s = (s, 0%Z);
+  sf_not_key : not_a_key s }.
+
+Lemma symbol_facts : forall s z, z_of_symbol s = Some z -> sym_facts s.
+Proof.
+  intros s z H. pose proof (symbol_checked s z H) as C. unfold sym_check in C.
+  repeat (apply andb_true_iff in C; destruct C as [C ?]).
+  constructor.
+  - split; [destruct s; [discriminate C|discriminate]|].
+    apply Forall_forall. intros c Hc. rewrite forallb_forall in H3. apply negb_true_iff, H3, Hc.
+  - apply negb_true_iff. assumption.
+  - unfold detect_isotope. destruct (assoc_text hydrogen_isotopes s); [discriminate|reflexivity].
+  - intros k Hk. rewrite forallb_forall in H0. apply negb_true_iff, H0, Hk.
+Qed.
+
+(* ---- the atom line ---- *)
+Record atom_ok (x : atom rpay) : Prop := {
+  ao_sym : z_of_symbol (p_sym (pay x)) = Some (zn x);      (* in the element table; not D, T, * *)
+  ao_x : coord_tok (p_x (pay x));
+  ao_y : coord_tok (p_y (pay x));
+  ao_z : coord_tok (p_z (pay x)) }.
+
+Definition atom_tokens (x : atom rpay) : list text := t "M" :: t "V30" :: atom_toks x.
+Definition bond_tokens (ib : N * (N * N * option Z)) : list text := t "M" :: t "V30" :: bond_toks ib.
+
+Definition expected_atom (x : atom rpay) : ratom :=
+  mkRatom (Z.of_N (lbl x)) (p_sym (pay x)) (zn x)
+          (keep chg_ok (p_chg (pay x))) (keep mass_ok (mass x)) (keep rad_ok (rad x))
+          (p_x (pay x)) (p_y (pay x)) (p_z (pay x)).
+Definition expected_bond (b : N * N * option Z) : rbond :=
+  (Z.of_N (fst (fst b)), Z.of_N (snd (fst b)), opt_default 1%Z (snd b)).
+
+Lemma pv_hit : forall key name cond o rest R,
+  no_eq (t name) -> text_eqb (t name) key = true -> prop_values key rest = ok R ->
+  prop_values key (opt_tok name cond o ++ rest) = ok (match keep cond o with Some v => v :: R | None => R end).
+Proof.
+  intros key name cond o rest R Hn He Hr. rewrite (prop_values_opt key name cond o rest Hn), He, Hr.
+  destruct (keep cond o); reflexivity.
+Qed.
+
+Lemma pv_miss : forall key name cond o rest R,
+  no_eq (t name) -> text_eqb (t name) key = false -> prop_values key rest = ok R ->
+  prop_values key (opt_tok name cond o ++ rest) = ok R.
+Proof.
+  intros key name cond o rest R Hn He Hr. rewrite (prop_values_opt key name cond o rest Hn), He, Hr. reflexivity.
+Qed.
+
+Lemma no_eq_CHG : no_eq (t "CHG"). Proof. repeat constructor. Qed.
+Lemma no_eq_RAD : no_eq (t "RAD"). Proof. repeat constructor. Qed.
+Lemma no_eq_MASS : no_eq (t "MASS"). Proof. repeat constructor. Qed.
+
+Lemma prop_values_fixed : forall key x, In key key_texts -> atom_ok x ->
+  prop_values key (atom_tokens x)
+  = prop_values key (opt_tok "CHG" chg_ok (p_chg (pay x)) ++ opt_tok "RAD" rad_ok (rad x)
+                     ++ opt_tok "MASS" mass_ok (mass x) ++ []).
+Proof.
+  intros key x Hk [Hs Hx Hy Hz]. unfold atom_tokens, atom_toks. cbn [app].
+  pose proof (symbol_facts _ _ Hs) as F.
+  rewrite prop_values_skip by (cbn in Hk; destruct Hk as [<- | [<- | [<- | []]]]; reflexivity).
+  rewrite prop_values_skip by (cbn in Hk; destruct Hk as [<- | [<- | [<- | []]]]; reflexivity).
+  rewrite prop_values_skip by (apply all_digit_not_a_key; [apply text_of_N_all_digit|exact Hk]).
+  rewrite prop_values_skip by (apply (sf_not_key _ F), Hk).
+  rewrite prop_values_skip by (apply (coord_not_a_key _ Hx), Hk).
+  rewrite prop_values_skip by (apply (coord_not_a_key _ Hy), Hk).
+  rewrite prop_values_skip by (apply (coord_not_a_key _ Hz), Hk).
+  rewrite prop_values_skip by (cbn in Hk; destruct Hk as [<- | [<- | [<- | []]]]; reflexivity).
+  rewrite app_nil_r. reflexivity.
+Qed.
+
+Lemma prop_values_chg : forall x, atom_ok x ->
+  prop_values (t "CHG") (atom_tokens x)
+  = ok (match keep chg_ok (p_chg (pay x)) with Some v => [v] | None => [] end).
+Proof.
+  intros x H. rewrite (prop_values_fixed (t "CHG") x) by (try exact H; cbn; auto).
+  apply pv_hit; [exact no_eq_CHG|reflexivity|].
+  apply pv_miss; [exact no_eq_RAD|reflexivity|].
+  apply pv_miss; [exact no_eq_MASS|reflexivity|reflexivity].
+Qed.
+
+Lemma prop_values_rad : forall x, atom_ok x ->
+  prop_values (t "RAD") (atom_tokens x)
+  = ok (match keep rad_ok (rad x) with Some v => [v] | None => [] end).
+Proof.
+  intros x H. rewrite (prop_values_fixed (t "RAD") x) by (try exact H; cbn; auto).
+  apply pv_miss; [exact no_eq_CHG|reflexivity|].
+  apply pv_hit; [exact no_eq_RAD|reflexivity|].
+  apply pv_miss; [exact no_eq_MASS|reflexivity|reflexivity].
+Qed.
+
+Lemma prop_values_mass : forall x, atom_ok x ->
+  prop_values (t "MASS") (atom_tokens x)
+  = ok (match keep mass_ok (mass x) with Some v => [v] | None => [] end).
+Proof.
+  intros x H. rewrite (prop_values_fixed (t "MASS") x) by (try exact H; cbn; auto).
+  apply pv_miss; [exact no_eq_CHG|reflexivity|].
+  apply pv_miss; [exact no_eq_RAD|reflexivity|].
+  apply pv_hit; [exact no_eq_MASS|reflexivity|reflexivity].
+Qed.
+
+Lemma atom_tokens_nth : forall x,
+  nth_tok 2 (atom_tokens x) = ok (tN (lbl x + 1)) /\
+  nth_tok 3 (atom_tokens x) = ok (p_sym (pay x)) /\
+  nth_tok 4 (atom_tokens x) = ok (p_x (pay x)) /\
+  nth_tok 5 (atom_tokens x) = ok (p_y (pay x)) /\
+  nth_tok 6 (atom_tokens x) = ok (p_z (pay x)).
+Proof. intro x. repeat split. Qed.
+
+Lemma parse_atom_line_written : forall x, atom_ok x ->
+  parse_atom_line (atom_tokens x) = ok (Some (expected_atom x)).
+Proof.
+  intros x H. pose proof H as [Hs [_ Hx] [_ Hy] [_ Hz]].
+  pose proof (symbol_facts _ _ Hs) as F.
+  destruct (atom_tokens_nth x) as [E2 [E3 [E4 [E5 E6]]]].
+  unfold parse_atom_line.
+  rewrite E2. cbn [bind ok]. rewrite int_of_tN. cbn [bind ok].
+  rewrite E3. cbn [bind ok]. rewrite (sf_not_star _ F), (sf_not_isotope _ F), Hs. cbn [of_opt bind ok].
+  rewrite E4, E5, E6. cbn [bind ok]. rewrite Hx, Hy, Hz. cbn [andb negb].
+  rewrite (prop_values_chg x H). cbn [bind ok].
+  change (Z.eqb 0 0) with true. cbv iota.
+  rewrite (prop_values_mass x H). cbn [bind ok].
+  rewrite (prop_values_rad x H). cbn [bind ok].
+  rewrite (last_nonzero_keep chg_ok _ chg_ok_nonzero), (last_nonzero_keep mass_ok _ mass_ok_nonzero),
+          (last_nonzero_keep rad_ok _ rad_ok_nonzero).
+  unfold expected_atom. do 3 f_equal. lia.
+Qed.
+
+(* ------------------------------------------------------------------------------------ *)
+(* 11. atom block, bond block                                                            *)
+(* ------------------------------------------------------------------------------------ *)
+
+Lemma dict_set_fresh : forall (K V : Type) (eqb : K -> K -> bool) (k : K) (v : V) (d : list (K * V)),
+  (forall a b, eqb a b = true -> a = b) ->
+  ~ In k (map fst d) -> dict_set eqb k v d = d ++ [(k, v)].
+Proof.
+  intros K V eqb k v d Heq. induction d as [|[k' v'] d IH]; intro H; [reflexivity|].
+  cbn [dict_set]. destruct (eqb k' k) eqn:E.
+  - exfalso. apply H. left. apply Heq, E.
+  - cbn [app]. rewrite IH; [reflexivity|]. intro Hin. apply H. right. exact Hin.
+Qed.
+
+Lemma Zeqb_eq : forall a b : Z, Z.eqb a b = true -> a = b.
+Proof. intros a b. apply Z.eqb_eq. Qed.
+
+Lemma bkey_eqb_eq : forall a b : Z * Z, bkey_eqb a b = true -> a = b.
+Proof.
+  intros [a1 a2] [b1 b2] H. unfold bkey_eqb in H. cbn [fst snd] in H.
+  apply andb_true_iff in H. destruct H as [H1 H2]. apply Z.eqb_eq in H1, H2. subst. reflexivity.
+Qed.
+
+Definition akey (x : atom rpay) : Z := Z.of_N (lbl x).
+
+Lemma parse_atoms_written : forall xs acc,
+  Forall atom_ok xs -> NoDup (map fst acc ++ map akey xs) ->
+  parse_atoms (map atom_tokens xs) acc []
+  = ok (acc ++ map (fun x => (akey x, expected_atom x)) xs, []).
+Proof.
+  induction xs as [|x xs IH]; intros acc Hok Hnd.
+  - cbn [map parse_atoms]. rewrite app_nil_r. reflexivity.
+  - inversion Hok as [|? ? Hx Hxs]; subst. cbn [map parse_atoms].
+    destruct (atom_tokens_nth x) as [E2 _]. rewrite E2. cbn [bind ok]. rewrite int_of_tN. cbn [bind ok].
+    rewrite (parse_atom_line_written x Hx). cbn [bind ok].
+    replace (Z.of_N (lbl x + 1) - 1)%Z with (akey x) by (unfold akey; lia).
+    cbn [map] in Hnd.
+    rewrite (dict_set_fresh _ _ Z.eqb (akey x) (expected_atom x) acc Zeqb_eq).
+    + rewrite IH; [|exact Hxs|].
+      * rewrite <- app_assoc. reflexivity.
+      * rewrite map_app, <- app_assoc. exact Hnd.
+    + intro Hin. apply NoDup_remove_2 in Hnd. apply Hnd, in_or_app. left. exact Hin.
+Qed.
+
+Definition bkey (b : N * N * option Z) : Z * Z := (Z.of_N (fst (fst b)), Z.of_N (snd (fst b))).
+
+Lemma bond_tokens_nth : forall ib,
+  nth_tok 3 (bond_tokens ib) = ok (tZ (opt_default 1%Z (snd (snd ib)))) /\
+  nth_tok 4 (bond_tokens ib) = ok (tN (fst (fst (snd ib)) + 1)) /\
+  nth_tok 5 (bond_tokens ib) = ok (tN (snd (fst (snd ib)) + 1)).
+Proof. intro ib. repeat split. Qed.
+
+Lemma parse_bonds_written : forall bs i acc,
+  NoDup (map fst acc ++ map bkey bs) ->
+  parse_bonds (map bond_tokens (enumerate_from i bs)) [] acc
+  = ok (acc ++ map (fun b => (bkey b, opt_default 1%Z (snd b))) bs).
+Proof.
+  induction bs as [|b bs IH]; intros i acc Hnd.
+  - cbn [enumerate_from map parse_bonds]. rewrite app_nil_r. reflexivity.
+  - cbn [enumerate_from map parse_bonds].
+    destruct (bond_tokens_nth (i, b)) as [E3 [E4 E5]]. cbn [fst snd] in E3, E4, E5.
+    rewrite E4. cbn [bind ok]. rewrite int_of_tN. cbn [bind ok].
+    rewrite E5. cbn [bind ok]. rewrite int_of_tN. cbn [bind ok].
+    rewrite E3. cbn [bind ok]. rewrite int_of_tZ. cbn [bind ok].
+    cbv zeta. cbn [memZ existsb andb bind ok fold_left].
+    replace (Z.of_N (fst (fst b) + 1) - 1, Z.of_N (snd (fst b) + 1) - 1)%Z with (bkey b)
+      by (unfold bkey; f_equal; lia).
+    cbn [map] in Hnd.
+    rewrite (dict_set_fresh _ _ bkey_eqb (bkey b) (opt_default 1%Z (snd b)) acc bkey_eqb_eq).
+    + rewrite IH.
+      * rewrite <- app_assoc. reflexivity.
+      * rewrite map_app, <- app_assoc. exact Hnd.
+    + intro Hin. apply NoDup_remove_2 in Hnd. apply Hnd, in_or_app. left. exact Hin.
+Qed.
+
+(* ---- indexing into the token lines ---- *)
+Lemma nth_line_app : forall (a r : list (list text)) k j,
+  j = length a + k -> nth_line j (a ++ r) = nth_line k r.
+Proof.
+  induction a as [|x a IH]; intros r k j ->; [reflexivity|]. cbn [length plus app nth_line]. apply IH. reflexivity.
+Qed.
+
+Lemma take_lines_app : forall (A : Type) (a b r : list A) j n,
+  j = length a -> n = length b -> take_lines j n (a ++ b ++ r) = b.
+Proof.
+  intros A a b r j n -> ->. unfold take_lines. rewrite skipn_app, skipn_all, Nat.sub_diag. cbn [app skipn].
+  rewrite firstn_app, firstn_all, Nat.sub_diag. cbn [firstn]. apply app_nil_r.
+Qed.
+
+(* ------------------------------------------------------------------------------------ *)
+(* 12. write, then read                                                                  *)
+(* ------------------------------------------------------------------------------------ *)
+
+Record mol_ok (m : mol rpay (option Z)) : Prop := {
+  mo_atoms : Forall atom_ok (atoms m);
+  mo_labels : NoDup (labels m);                                          (* node names are distinct *)
+  mo_bonds : NoDup (map (fun b => (fst (fst b), snd (fst b))) (bonds m));  (* no bond listed twice *)
+  mo_ends : Forall (fun b => In (fst (fst b)) (labels m) /\ In (snd (fst b)) (labels m)) (bonds m) }.
+
+Definition counts_tokens (m : mol rpay (option Z)) : list text :=
+  [t "M"; t "V30"; t "COUNTS"; tN (N.of_nat (length (atoms m))); tN (N.of_nat (length (bonds m)));
+   t "0"; t "0"; t "0"].
+
+Lemma tokenize_counts_line : forall m, tokenize (prefix ++ counts_line m) = counts_tokens m.
+Proof.
+  intro m.
+  replace (counts_line m) with
+    (join_with [sp] [t "COUNTS"; tN (N.of_nat (length (atoms m))); tN (N.of_nat (length (bonds m)));
+                     t "0"; t "0"; t "0"]).
+  - apply tokenize_prefix_join.
+    repeat (apply Forall_cons; [first [apply text_of_N_good|exact good_zero|idtac]|]); [|apply Forall_nil].
+    split; [discriminate|repeat constructor].
+  - unfold counts_line, spt. cbn [join_with].
+    change (t "COUNTS ") with (t "COUNTS" ++ [sp]).
+    change (t " 0 0 0") with ([sp] ++ t "0" ++ [sp] ++ t "0" ++ [sp] ++ t "0").
+    rewrite <- !app_assoc. reflexivity.
+Qed.
+
+Definition T (s : string) : list text := tokenize (prefix ++ t s).
+
+Definition bond_block_tokens (m : mol rpay (option Z)) : list (list text) :=
+  match bonds m with
+  | [] => []
+  | _ => T "BEGIN BOND" :: map bond_tokens (enumerate_from 1 (bonds m)) ++ [T "END BOND"]
+  end.
+
+Lemma token_lines_shape : forall line2 m, Forall atom_ok (atoms m) ->
+  map tokenize (logical_lines line2 m)
+  = [tokenize []; tokenize line2; tokenize []; tokenize (t "  0  0  0     0  0            999 V3000");
+     T "BEGIN CTAB"; counts_tokens m; T "BEGIN ATOM"]
+    ++ map atom_tokens (atoms m)
+    ++ (T "END ATOM" :: bond_block_tokens m ++ [T "END CTAB"; tokenize (t "M  END")]).
+Proof.
+  intros line2 m Hok.
+  assert (HA : map tokenize (map (app prefix) (map atom_line (atoms m))) = map atom_tokens (atoms m)).
+  { rewrite !map_map. apply map_ext_in. intros x Hx. rewrite Forall_forall in Hok.
+    destruct (Hok x Hx) as [Hs [Gx _] [Gy _] [Gz _]].
+    apply tokenize_atom_line; try assumption. apply (sf_good _ (symbol_facts _ _ Hs)). }
+  assert (HB : forall l, map tokenize (map (app prefix) (map bond_line l)) = map bond_tokens l).
+  { intro l. rewrite !map_map. apply map_ext. intro ib. apply tokenize_bond_line. }
+  unfold logical_lines, header, v30_contents, bond_block_tokens, T.
+  rewrite !map_app. cbn [map app]. rewrite tokenize_counts_line. unfold text in *. rewrite HA.
+  destruct (bonds m) as [|b bs].
+  - cbn [map app]. rewrite <- !app_assoc. reflexivity.
+  - rewrite !map_app. cbn [map app]. rewrite HB. rewrite <- !app_assoc. cbn [app]. rewrite <- !app_assoc. reflexivity.
+Qed.
+
+Lemma to_nat_idx_of_nat : forall n, to_nat_idx (Z.of_N (N.of_nat n)) = ok n.
+Proof.
+  intro n. unfold to_nat_idx. destruct (Z.ltb_spec (Z.of_N (N.of_nat n)) 0); [lia|].
+  unfold ok. f_equal. lia.
+Qed.
+
+Lemma memZ_in : forall a l, In a l -> memZ a l = true.
+Proof. intros a l H. unfold memZ. apply existsb_exists. exists a. split; [exact H|apply Z.eqb_refl]. Qed.
+
+Lemma pair_of_N_inj : FinFun.Injective (fun p : N * N => (Z.of_N (fst p), Z.of_N (snd p))).
+Proof. intros [a b] [c d] H. cbn [fst snd] in H. injection H as H1 H2. apply N2Z.inj in H1, H2. subst. reflexivity. Qed.
+
+Theorem write_read_roundtrip : forall line2 m,
+  continues line2 = false -> mol_ok m ->
+  read_v3000 (write_lines line2 m) = ok (map expected_atom (atoms m), map expected_bond (bonds m)).
+Proof.
+  intros line2 m Hl2 [Hatoms Hlabels Hbonds Hends].
+  unfold read_v3000. rewrite (tokenize_lines_write_lines line2 m Hl2). cbn [bind ok].
+  rewrite (token_lines_shape line2 m Hatoms).
+  set (pre := [tokenize []; tokenize line2; tokenize []; tokenize (t "  0  0  0     0  0            999 V3000");
+               T "BEGIN CTAB"; counts_tokens m; T "BEGIN ATOM"]).
+  set (A := map atom_tokens (atoms m)).
+  set (n := length (atoms m)).
+  assert (HA : length A = n) by (unfold A; apply map_length).
+  set (R := T "END ATOM" :: bond_block_tokens m ++ [T "END CTAB"; tokenize (t "M  END")]).
+  set (TL := pre ++ A ++ R).
+  (* counts line *)
+  change (nth_line 5 TL) with (ok (counts_tokens m)). cbn [bind ok].
+  change (nth_tok 2 (counts_tokens m)) with (ok (t "COUNTS")). cbn [bind ok].
+  change (text_eqb (t "COUNTS") (t "COUNTS")) with true.
+  change (length (counts_tokens m)) with 8. cbn [negb orb Nat.ltb Nat.leb].
+  change (nth_tok 3 (counts_tokens m)) with (ok (tN (N.of_nat n))). cbn [bind ok].
+  rewrite int_of_tN. cbn [bind ok]. rewrite to_nat_idx_of_nat. cbn [bind ok].
+  (* atom block *)
+  change (nth_line 6 TL) with (ok (T "BEGIN ATOM")). cbn [bind ok].
+  replace (expect_block (t "BEGIN ATOM") (T "BEGIN ATOM")) with (ok tt) by (vm_compute; reflexivity).
+  cbn [bind ok].
+  assert (Hea : nth_line (7 + n) TL = ok (T "END ATOM")).
+  { unfold TL. rewrite (nth_line_app pre (A ++ R) n) by reflexivity.
+    rewrite (nth_line_app A R 0) by lia. reflexivity. }
+  rewrite Hea. cbn [bind ok].
+  replace (expect_block (t "END ATOM") (T "END ATOM")) with (ok tt) by (vm_compute; reflexivity).
+  cbn [bind ok].
+  assert (Hta : take_lines 7 n TL = A) by (unfold TL; apply take_lines_app; [reflexivity|lia]).
+  rewrite Hta. unfold A.
+  rewrite (parse_atoms_written (atoms m) [] Hatoms).
+  2:{ cbn [map app]. unfold labels in Hlabels.
+      replace (map akey (atoms m)) with (map Z.of_N (map (@lbl rpay) (atoms m))) by (rewrite map_map; reflexivity).
+      apply FinFun.Injective_map_NoDup; [|exact Hlabels]. intros a b. apply N2Z.inj. }
+  cbn [bind ok app].
+  (* bond block *)
+  change (nth_tok 4 (counts_tokens m)) with (ok (tN (N.of_nat (length (bonds m))))). cbn [bind ok].
+  rewrite int_of_tN. cbn [bind ok].
+  set (atoms' := map (fun x => (akey x, expected_atom x)) (atoms m)).
+  assert (Hkeys : map fst atoms' = map Z.of_N (labels m)).
+  { unfold atoms', labels. rewrite !map_map. reflexivity. }
+  assert (Hres : map snd atoms' = map expected_atom (atoms m)).
+  { unfold atoms'. rewrite map_map. reflexivity. }
+  destruct (bonds m) as [|b bs] eqn:Eb.
+  - cbn [length N.of_nat Z.of_N Z.eqb bind ok forallb map]. rewrite Hres. reflexivity.
+  - set (k := length (b :: bs)).
+    replace (Z.eqb (Z.of_N (N.of_nat k)) 0) with false by (symmetry; apply Z.eqb_neq; unfold k; cbn [length]; lia).
+    rewrite to_nat_idx_of_nat. cbn [bind ok].
+    set (B := map bond_tokens (enumerate_from 1 (b :: bs))).
+    assert (HB : length B = k).
+    { unfold B, k. rewrite map_length. clear. generalize 1%N. induction (b :: bs) as [|x l IH]; intro i; [reflexivity|].
+      cbn [enumerate_from length]. rewrite IH. reflexivity. }
+    assert (HR : R = [T "END ATOM"; T "BEGIN BOND"] ++ B ++ [T "END BOND"; T "END CTAB"; tokenize (t "M  END")]).
+    { unfold R, bond_block_tokens. rewrite Eb. fold B. cbn [app]. rewrite <- app_assoc. reflexivity. }
+    assert (Hbb : nth_line (7 + n + 2 - 1) TL = ok (T "BEGIN BOND")).
+    { unfold TL. rewrite (nth_line_app pre (A ++ R) (n + 1)) by (unfold pre; cbn [length]; lia).
+      rewrite (nth_line_app A R 1) by lia. rewrite HR. reflexivity. }
+    rewrite Hbb. cbn [bind ok].
+    replace (expect_block (t "BEGIN BOND") (T "BEGIN BOND")) with (ok tt) by (vm_compute; reflexivity).
+    cbn [bind ok].
+    assert (Heb : nth_line (7 + n + 2 + k) TL = ok (T "END BOND")).
+    { unfold TL. rewrite (nth_line_app pre (A ++ R) (n + (2 + k))) by (unfold pre; cbn [length]; lia).
+      rewrite (nth_line_app A R (2 + k)) by lia. rewrite HR.
+      rewrite (nth_line_app [T "END ATOM"; T "BEGIN BOND"] _ k) by reflexivity.
+      rewrite (nth_line_app B _ 0) by lia. reflexivity. }
+    rewrite Heb. cbn [bind ok].
+    replace (expect_block (t "END BOND") (T "END BOND")) with (ok tt) by (vm_compute; reflexivity).
+    cbn [bind ok].
+    assert (Htb : take_lines (7 + n + 2) k TL = B).
+    { unfold TL. rewrite HR.
+      replace (pre ++ A ++ [T "END ATOM"; T "BEGIN BOND"] ++ B ++ [T "END BOND"; T "END CTAB"; tokenize (t "M  END")])
+        with ((pre ++ A ++ [T "END ATOM"; T "BEGIN BOND"]) ++ B ++ [T "END BOND"; T "END CTAB"; tokenize (t "M  END")])
+        by (rewrite <- !app_assoc; reflexivity).
+      apply take_lines_app; [|lia]. rewrite !app_length. unfold pre. cbn [length]. lia. }
+    rewrite Htb. unfold B.
+    rewrite (parse_bonds_written (b :: bs) 1 []).
+    2:{ change (NoDup (map bkey (b :: bs))).
+        replace (map bkey (b :: bs))
+          with (map (fun p : N * N => (Z.of_N (fst p), Z.of_N (snd p)))
+                    (map (fun b => (fst (fst b), snd (fst b))) (b :: bs))) by (rewrite map_map; reflexivity).
+        apply FinFun.Injective_map_NoDup; [exact pair_of_N_inj|exact Hbonds]. }
+    cbn [bind ok app].
+    set (bonds' := map (fun b0 => (bkey b0, opt_default 1%Z (snd b0))) (b :: bs)).
+    assert (Hchk : forallb (fun b0 : Z * Z * Z =>
+                     memZ (fst (fst b0)) (map fst atoms') && memZ (snd (fst b0)) (map fst atoms')) bonds' = true).
+    { apply forallb_forall. intros x Hx. unfold bonds' in Hx. apply in_map_iff in Hx.
+      destruct Hx as [b0 [<- Hb0]]. rewrite Forall_forall in Hends. destruct (Hends b0 Hb0) as [H1 H2].
+      rewrite Hkeys. cbn [fst snd bkey]. unfold bkey. cbn [fst snd].
+      rewrite !memZ_in; [reflexivity| |]; apply in_map; assumption. }
+    rewrite Hchk, Hres. unfold bonds'. rewrite map_map. reflexivity.
+Qed.
